@@ -19,7 +19,10 @@ ID = 'C04'
 RULE = ('random rasters up to 6x6: zone ids from a small alphabet (negative, fractional, interleaved, NaN/+-inf zone cells), '
         '2-D values from a small category alphabet (0..4, NaN/+-inf cells) or 3-D values with 1-4 labelled layers; nodata in '
         '{None, NaN, a category, a zone id}; zone_ids and cat_ids None or sub-lists in ANY order with absent ids (zone_ids also '
-        'with duplicates); agg count/percentage (2-D) and the seven aggregates (3-D, layer axis first or last); NumPy backend on '
+        'with duplicates); agg count/percentage (2-D) and the seven aggregates (3-D; category dimension first, in the MIDDLE or last, '
+        'addressed by `layer` as positive, negative or default index, on square and non-square rasters); zones and values '
+        'INDEPENDENTLY in memory layout C / Fortran copy / reversed-axes view / strided view (Dask: also a lazily transposed '
+        'array); NumPy backend on '
         'every case and the Dask backend (one chunking) on about one in seven. The thorough tier enumerates every ordered sub-list '
         'of zone ids x every ordered sub-list of categories for rasters with <= 3 zones and <= 3 categories. Named hard cases: '
         'a skipped category that is present below a selected one, zone_ids in descending order. Non-trivial: at least one '
@@ -99,11 +102,13 @@ def maybe_int(rng, ids):
 
 def gen_case(rng, quick, i):
     rows, cols = c02.shape_for(rng, True)
+    three_d = rng.random() < 0.3
+    if three_d and rng.random() < 0.45:
+        rows = cols = rng.randint(2, 5)          # square rasters: a swap of the spatial axes does not change the shape
     zd = c02.ZD[i % 4]
     vd = c02.VD[(i // 4) % 4]
     zones, alphabet = c02.gen_zones(rng, rows, cols, zd)
     present = c02.finite_zone_ids(zones)
-    three_d = rng.random() < 0.3
     u = rng.random()
     zone_ids = None if u < 0.35 else maybe_int(rng, sub_list(rng, present, [11.0, -7.0, 0.75], True))
     if zone_ids is not None and rng.random() < 0.05:
@@ -132,8 +137,13 @@ def gen_case(rng, quick, i):
         u = rng.random()
         nodata = None if u < 0.4 else (rng.choice(allv) if (u < 0.8 and allv) else (NAN if u < 0.9 else 0))
         cat_ids = None if rng.random() < 0.4 else maybe_int(rng, sub_list(rng, labels, [99.0], False))
+        pos = rng.choice([0, 1, 1, 2])            # category dimension first / in the MIDDLE / last
+        u = rng.random()
+        layer = (pos - 3) if u < 0.4 else (None if (pos == 0 and u < 0.7) else pos)     # negative, default, positive index
         case.update(layers=layers, labels=labels, nodata=nodata, cat_ids=cat_ids, agg=rng.choice(AGG3), ndim=3,
-                    layer_axis=rng.choice([0, 2]))
+                    layer_axis=pos, layer=layer)
+    case['zlayout'] = c02.pick_layout(rng)
+    case['vlayout'] = c02.pick_layout(rng)
     if rng.random() < 0.15:
         case['backend'] = 'dask'
         case['chunks'] = [rng.randint(1, rows), rng.randint(1, cols)]
@@ -144,33 +154,63 @@ def gen_case(rng, quick, i):
     return case
 
 
-def build_inputs(case):
+def layout_nd(a, layout):
+    """the same logical n-d array in another memory layout (C, Fortran copy, reversed-axes view, strided view)"""
+    if layout == 'F':
+        return np.asfortranarray(a)
+    if layout == 'T':
+        return np.ascontiguousarray(a.transpose()).transpose()
+    if layout == 'S':
+        big = np.full(a.shape[:-1] + (a.shape[-1] * 2 + 1,), 77, dtype=a.dtype)
+        big[..., 1::2] = a
+        return big[..., 1::2]
+    return np.ascontiguousarray(a)
+
+
+def dask_of(a, chunks, layout):
+    """dask array over `a` in the given layout; 'T' is a LAZILY transposed dask array (blocks become transposed views)"""
     import dask.array as da
+    if layout == 'T':
+        rev = tuple(reversed(chunks)) if isinstance(chunks, tuple) else chunks
+        return da.from_array(np.ascontiguousarray(a.transpose()), chunks=rev).transpose()
+    return da.from_array(layout_nd(a, layout), chunks=chunks)
+
+
+def layer_position(case):
+    """position of the category dimension in the values DataArray: 0 (cat, y, x), 1 (y, cat, x), 2 (y, x, cat)"""
+    return int(case.get('layer_axis', 0))
+
+
+def build_inputs(case):
+    zl, vl = case.get('zlayout', 'C'), case.get('vlayout', 'C')
     z = np_array(case['zones'], case['zdtype'])
+    dask = case['backend'] == 'dask'
+    ch = tuple(case['chunks']) if dask else None
+    if dask:
+        zz = xr.DataArray(dask_of(z, ch, zl), dims=['y', 'x'])
+    else:
+        zz = xr.DataArray(layout_nd(z, zl), dims=['y', 'x'])
     if case['ndim'] == 2:
         v = np_array(case['values'], case['vdtype'])
-        if case['backend'] == 'dask':
-            ch = tuple(case['chunks'])
+        if dask:
             vch = tuple(case.get('vchunks', case['chunks']))
-            return (xr.DataArray(da.from_array(z, chunks=ch), dims=['y', 'x']),
-                    xr.DataArray(da.from_array(v, chunks=vch), dims=['y', 'x']), None)
-        return xr.DataArray(z, dims=['y', 'x']), xr.DataArray(v, dims=['y', 'x']), None
-    v = np.stack([np_array(L, case['vdtype']) for L in case['layers']], axis=0)
-    dims = ['cat', 'y', 'x']
-    layer = None
-    if case.get('layer_axis', 0) == 2:
-        v = np.moveaxis(v, 0, 2)
-        dims = ['y', 'x', 'cat']
-        layer = 2
-    if case['backend'] == 'dask':
-        ch = tuple(case['chunks'])
-        vchunks = (v.shape[0],) + ch if layer is None else ch + (v.shape[2],)
+            return zz, xr.DataArray(dask_of(v, vch, vl), dims=['y', 'x']), None
+        return zz, xr.DataArray(layout_nd(v, vl), dims=['y', 'x']), None
+    pos = layer_position(case)
+    v = np.moveaxis(np.stack([np_array(L, case['vdtype']) for L in case['layers']], axis=0), 0, pos)
+    dims = ['y', 'x']
+    dims.insert(pos, 'cat')
+    layer = case['layer'] if 'layer' in case else (None if pos == 0 else pos)
+    coords = {'cat': list(case['labels'])}
+    if dask:
         if 'vchunks' in case:
-            vc = tuple(case['vchunks'])
-            vchunks = (1,) + vc if layer is None else vc + (1,)
-        vv = xr.DataArray(da.from_array(v, chunks=vchunks), dims=dims, coords={'cat': list(case['labels'])})
-        return xr.DataArray(da.from_array(z, chunks=ch), dims=['y', 'x']), vv, layer
-    return xr.DataArray(z, dims=['y', 'x']), xr.DataArray(v, dims=dims, coords={'cat': list(case['labels'])}), layer
+            vchunks = list(tuple(case['vchunks']))
+            vchunks.insert(pos, 1)
+        else:
+            vchunks = list(ch)
+            vchunks.insert(pos, v.shape[pos])
+        return zz, xr.DataArray(dask_of(v, tuple(vchunks), vl), dims=dims, coords=coords), layer
+    return zz, xr.DataArray(layout_nd(v, vl), dims=dims, coords=coords), layer
 
 
 def run_impl(case):
@@ -354,13 +394,18 @@ def exhaustive_cases(rng, n_rasters):
             for ci in csel:
                 yield dict(fn='crosstab', zones=zones, zdtype='float64', vdtype='float64', zone_ids=zi, values=values,
                            nodata=None, cat_ids=ci, agg='count' if (len(ci or []) + len(zi or [])) % 2 == 0 else 'percentage',
-                           ndim=2, backend='numpy')
+                           ndim=2, backend='numpy', zlayout=c02.LAYOUTS[(len(zi or []) + 2 * len(ci or [])) % 4],
+                           vlayout=c02.LAYOUTS[(2 * len(zi or []) + len(ci or []) + 1) % 4])
 
 
 def one(ctx, case, pending):
     ctx.case(case, nontrivial=nontrivial(case))
     ctx.count('%s/%dD/%s/%s/%s' % (case['backend'], case['ndim'], case['agg'], 'zids' if case['zone_ids'] is not None else 'allz',
                                    'cids' if case['cat_ids'] is not None else 'allc'))
+    ctx.count('layout/zones=%s/values=%s' % (case.get('zlayout', 'C'), case.get('vlayout', 'C')))
+    if case['ndim'] == 3:
+        ctx.count('3d/cat-dim-position=%d/layer=%r/%s' % (layer_position(case), case.get('layer'),
+                                                           'square' if len(case['zones']) == len(case['zones'][0]) else 'non-square'))
     cols, rows, existing = expectation(case)
     if in_cat_class(case, existing):
         ctx.count('hard/skipped-present-category')
@@ -389,7 +434,7 @@ def one(ctx, case, pending):
 
 def run(ctx, n=None):
     rng = ctx.rng
-    n = n or (800 if ctx.quick() else 8000)
+    n = n or (680 if ctx.quick() else 8000)
     pending = []
     for i in range(n):
         one(ctx, gen_case(rng, ctx.quick(), i), pending)
